@@ -116,9 +116,12 @@ func (e *Engine) readN(st *State, r Val, key, n *smt.Term, hint string) (ok, sta
 	return ok, pos, errv
 }
 
-// bufferInv: for a *bytes.Buffer the readable extent is what has been written (kept by syncBuffer on every write).
+// bufferInv: for a *bytes.Buffer the readable extent is what has been written. Writes made through contracts do not
+// synchronise the reader view (lazy synchronisation), so it is SET here, at the use, never assumed: assuming
+// avail == count with a stale avail made every state after a contract-level write contradictory (and every lemma
+// that calls buf.Len() after Encode vacuously true - found in session 4 by a reachability cover).
 func (e *Engine) bufferInv(st *State, key *smt.Term) {
-	e.assume(st, e.C.Eq(e.ghostGet(st, pAvail, key), e.ghostGet(st, gCount, key)))
+	e.syncBuffer(st, key, nil)
 }
 
 func (e *Engine) writerCount(st *State, key *smt.Term) *smt.Term {
